@@ -325,7 +325,6 @@ func finalize(logger *log.Logger, resolve *resolver, header HeaderV3, tmpfile *o
 
 func parseBounds(bounds string) (int32, int32, int32, int32, error) {
 	parts := strings.Split(bounds, ",")
-	E7 := 10000000.0
 	minLon, err := strconv.ParseFloat(strings.TrimSpace(parts[0]), 64)
 	if err != nil {
 		return 0, 0, 0, 0, err
@@ -342,12 +341,11 @@ func parseBounds(bounds string) (int32, int32, int32, int32, error) {
 	if err != nil {
 		return 0, 0, 0, 0, err
 	}
-	return int32(minLon * E7), int32(minLat * E7), int32(maxLon * E7), int32(maxLat * E7), nil
+	return degreesToE7(minLon), degreesToE7(minLat), degreesToE7(maxLon), degreesToE7(maxLat), nil
 }
 
 func parseCenter(center string) (int32, int32, uint8, error) {
 	parts := strings.Split(center, ",")
-	E7 := 10000000.0
 	centerLon, err := strconv.ParseFloat(strings.TrimSpace(parts[0]), 64)
 	if err != nil {
 		return 0, 0, 0, err
@@ -360,7 +358,7 @@ func parseCenter(center string) (int32, int32, uint8, error) {
 	if err != nil {
 		return 0, 0, 0, err
 	}
-	return int32(centerLon * E7), int32(centerLat * E7), uint8(centerZoom), nil
+	return degreesToE7(centerLon), degreesToE7(centerLat), uint8(centerZoom), nil
 }
 
 func mbtilesMetadataHasFormat(mbtilesMetadata []string) bool {
